@@ -45,7 +45,7 @@ use verif_harness::{join, parse_args, replay_cases, rng::Rng, Recorder};
 /// One monitored peer of a router: `BmpPeer::plain(base)`; `alt` = same address and AS but another BGP id
 /// (a different per-peer header with the *same* register key class); `gr` = Graceful Restart in its OPEN.
 #[derive(Clone, Debug, PartialEq)]
-struct PeerSpec { base: u32, alt: bool, gr: bool }
+struct PeerSpec { base: u32, /** 0 = the plain header, 1 = another BGP id (same register key class), 2 = the O flag: the Adj-RIB-Out view of the same neighbour (RFC 8671; same address and AS, another key class) */ alt: u8, gr: bool }
 
 #[derive(Clone, Debug, PartialEq)]
 struct RouterSpec { addr: u8, peers: Vec<PeerSpec> }
@@ -66,7 +66,8 @@ struct Scn { routers: Vec<RouterSpec>, ops: Vec<Op> }
 
 fn peer_of(p: &PeerSpec) -> BmpPeer {
     let mut b = BmpPeer::plain(p.base);
-    if p.alt { b.bgp_id = [9, 9, 9, 1 + p.base as u8]; }
+    if p.alt == 1 { b.bgp_id = [9, 9, 9, 1 + p.base as u8]; }
+    if p.alt == 2 { b.flags |= 0x10; }
     b.gr = p.gr;
     b
 }
@@ -75,12 +76,12 @@ fn show_nlris(ns: &[Nlri]) -> String { if ns.is_empty() { "-".into() } else { jo
 fn parse_nlris(s: &str) -> Option<Vec<Nlri>> { if s == "-" { Some(vec![]) } else { s.split(',').map(Nlri::parse).collect() } }
 
 fn show_scn_routers(rs: &[RouterSpec]) -> String {
-    join(rs.iter().map(|r| format!("{}:{}", r.addr, join(r.peers.iter().map(|p| format!("{}.{}.{}", p.base, p.alt as u8, p.gr as u8)), ","))), ";")
+    join(rs.iter().map(|r| format!("{}:{}", r.addr, join(r.peers.iter().map(|p| format!("{}.{}.{}", p.base, p.alt, p.gr as u8)), ","))), ";")
 }
 fn parse_scn_routers(s: &str) -> Option<Vec<RouterSpec>> {
     s.split(';').map(|r| {
         let (a, ps) = r.split_once(':')?;
-        let peers = ps.split(',').map(|p| { let f: Vec<&str> = p.split('.').collect(); if f.len() != 3 { return None; } Some(PeerSpec { base: f[0].parse().ok()?, alt: f[1] == "1", gr: f[2] == "1" }) }).collect::<Option<Vec<_>>>()?;
+        let peers = ps.split(',').map(|p| { let f: Vec<&str> = p.split('.').collect(); if f.len() != 3 { return None; } Some(PeerSpec { base: f[0].parse().ok()?, alt: f[1].parse().ok()?, gr: f[2] == "1" }) }).collect::<Option<Vec<_>>>()?;
         Some(RouterSpec { addr: a.parse().ok()?, peers })
     }).collect()
 }
@@ -296,7 +297,10 @@ fn run_scn(scn: &Scn, queries: &[Pfx]) -> Outcome {
             let rid = sessions[i].rid;
             let mut ids = register.ids_for_parent(rid);
             ids.sort();
-            match ids.iter().find(|id| register.get(**id).is_some_and(|x| x.remote_addr == Some(IpAddr::V4(b.addr)) && x.remote_asn.map(|a| a.into_u32()) == Some(b.asn))) {
+            // the documented identity of a monitored peer: parent, address, AS and RIB view (two views of one neighbour
+            // are two sources)
+            let view = if b.peer_type == 3 { routecore::bmp::message::RibType::LocRib } else if b.flags & 0x10 != 0 { routecore::bmp::message::RibType::AdjRibOut } else { routecore::bmp::message::RibType::AdjRibIn };
+            match ids.iter().find(|id| register.get(**id).is_some_and(|x| x.remote_addr == Some(IpAddr::V4(b.addr)) && x.remote_asn.map(|a| a.into_u32()) == Some(b.asn) && x.rib_type.map(|t| t == view).unwrap_or(true))) {
                 Some(id) => { osess[i].up.insert(h, *id); }
                 None => fails.push(format!("lifecycle:peer-up-on-live-session-not-registered {token}")),
             }
@@ -431,9 +435,11 @@ fn gen_scn(rng: &mut Rng, pool: &[Pfx], rec: &mut Recorder) -> Scn {
         let gr_all = rng.chance(1, 3);
         let n = rng.range(1, 3) as u32;
         // peer 0 of every router is the same neighbour (same address and AS seen from different routers)
-        RouterSpec { addr: 1 + r as u8, peers: (0..n).map(|k| PeerSpec { base: if k == 0 { 0 } else { 4 * r as u32 + k }, alt: false, gr: gr_all || rng.chance(1, 5) }).collect() }
+        RouterSpec { addr: 1 + r as u8, peers: (0..n).map(|k| PeerSpec { base: if k == 0 { 0 } else { 4 * r as u32 + k }, alt: 0, gr: gr_all || rng.chance(1, 5) }).collect() }
     }).collect();
-    if rng.chance(1, 8) { let r = rng.below(nr as u64) as usize; let (g, b0) = (routers[r].peers[0].gr, routers[r].peers[0].base); routers[r].peers.push(PeerSpec { base: b0, alt: true, gr: g }); rec.bump("world-two-headers-one-key-class"); }
+    if rng.chance(1, 8) { let r = rng.below(nr as u64) as usize; let (g, b0) = (routers[r].peers[0].gr, routers[r].peers[0].base); routers[r].peers.push(PeerSpec { base: b0, alt: 1, gr: g }); rec.bump("world-two-headers-one-key-class"); }
+    // the same neighbour monitored in two views (Adj-RIB-In and Adj-RIB-Out): two sources with one address and AS
+    if rng.chance(1, 5) { let r = rng.below(nr as u64) as usize; let k = rng.below(routers[r].peers.len() as u64) as usize; if routers[r].peers[k].alt == 0 { let (g, b0) = (routers[r].peers[k].gr, routers[r].peers[k].base); routers[r].peers.push(PeerSpec { base: b0, alt: 2, gr: g }); rec.bump("world-one-neighbour-two-views"); } }
     if routers.iter().any(|r| r.peers.iter().any(|p| p.gr)) { rec.bump("world-graceful-restart-peers"); }
     let focus: Vec<Pfx> = { let mut f: Vec<Pfx> = (0..rng.range(2, 5)).map(|_| *rng.pick(pool)).collect(); f.sort(); f.dedup(); f };
     // every prefix is used with one SAFI per case (C01's cross-SAFI finding is C01's business)
@@ -506,7 +512,7 @@ fn main() {
     let p24 = pool[2];
     let n24 = Nlri { pfx: p24, safi: Safi::U };
     let ann = |attr: u32| RmSpec { upd: Upd { attr, ann: vec![n24], wd: vec![], mp4: false, corrupt: 0 }, mark: false };
-    let one = |gr: bool| vec![RouterSpec { addr: 1, peers: vec![PeerSpec { base: 0, alt: false, gr }] }];
+    let one = |gr: bool| vec![RouterSpec { addr: 1, peers: vec![PeerSpec { base: 0, alt: 0, gr }] }];
     let start = vec![Op::Connect(0), Op::Msg(0, M::Init), Op::Msg(0, M::PeerUp(0))];
     let with = |tail: Vec<Op>| -> Vec<Op> { let mut v = start.clone(); v.extend(tail); v };
 
@@ -541,7 +547,7 @@ fn main() {
     // ---- witnesses / corpus
     let wd24 = RmSpec { upd: Upd { attr: 0, ann: vec![], wd: vec![n24], mp4: false, corrupt: 0 }, mark: false };
     let eor4 = RmSpec { upd: Upd { attr: 0, ann: vec![], wd: vec![], mp4: false, corrupt: 0 }, mark: false };
-    let two = vec![RouterSpec { addr: 1, peers: vec![PeerSpec { base: 0, alt: false, gr: true }, PeerSpec { base: 1, alt: false, gr: true }] }, RouterSpec { addr: 2, peers: vec![PeerSpec { base: 0, alt: false, gr: false }] }];
+    let two = vec![RouterSpec { addr: 1, peers: vec![PeerSpec { base: 0, alt: 0, gr: true }, PeerSpec { base: 1, alt: 0, gr: true }] }, RouterSpec { addr: 2, peers: vec![PeerSpec { base: 0, alt: 0, gr: false }] }];
     let corpus = vec![
         w_flap.clone(), w_eor.clone(), w_overlap.clone(),
         // Termination + reconnect: the router id and the peer id come back
